@@ -109,6 +109,28 @@ def _stack(ctx, prog):
                     'TriMesh' in tys[5] and 'Isometry' in tys[6] and 'CollisionBody' in tys[7], 'constructor parameter types of ' + b.path)
         params = {n: i + 1 for i, n in enumerate(order)}
         ret = strip(b.return_term())
+        key = b.path.split('::')[-1]
+        other = [x for x in news if x.path != b.path]
+        if isinstance(ret, tuple) and ret[0] == 'call' and other and ret[1] == other[0].path:
+            # one constructor may delegate to the other: the first eight arguments are then passed on position by position
+            # (two of them are meshes of the same type, two are transforms of the same type: a swap compiles)
+            args = [util.param_index(_unclone(a)) for a in ret[2:]]
+            ok = args[:8] == list(range(1, 9))
+            ctx.check(ok, 'R11.3', key + '/stack', b.where(0), b.path,
+                      'the constructor hands its arguments to %s in the order %s, expected 1..8 (parameters, constraints, joint meshes, base mesh, base transform, '
+                      'tool mesh, tool transform, environment)' % (other[0].path.split('::')[-1], args[:8]), found=str(args), detail='delegates position by position')
+            if key != 'with_safety':
+                last = strip(ret[10]) if len(ret) > 10 else None
+                modes = {}
+                okm = isinstance(last, tuple) and last[0] == 'call' and cname(last[1]) == 'SafetyDistances::standard'
+                if okm:
+                    for d in _defs_of_operand_local(b, last):
+                        for g, k, sw in b.guard_terms(d[1]):
+                            if util.param_index(g) == params.get('first_collision_only'):
+                                modes[opw.truth(k)] = show(b._def_term(d))
+                okm = okm and 'FirstCollisionOnly' in modes.get(True, '') and 'AllCollsions' in modes.get(False, '')
+                ctx.check(okm, 'R11.3', key + '/mode', b.where(0), b.path, 'first_collision_only must select FirstCollisionOnly / AllCollsions', found=modes)
+            continue
         ctx.require(isinstance(ret, tuple) and ret[0] == 'agg' and ret[1].endswith('KinematicsWithShape'), 'constructor returns a KinematicsWithShape aggregate')
         fields = dict(zip([f['name'] for f in prog.adts[KWS]['variants'][0]['fields']], ret[2:]))
         kin = strip(fields['kinematics'])
@@ -118,7 +140,6 @@ def _stack(ctx, prog):
         ok_arc = isinstance(kin, tuple) and kin[0] == 'call' and cname(kin[1]) == 'Arc::new'
         stack = strip(kin[2]) if ok_arc else None
         shape = _stack_shape(prog, b, stack, params) if ok_arc else 'not Arc::new(..)'
-        key = b.path.split('::')[-1]
         ctx.check(shape == 'ok', 'R11.3', key + '/stack', b.where(0), b.path, 'kinematic stack is not Tool{Base{OPW(params, constraints), base}, tool}: %s' % shape,
                   detail='Tool{Base{OPW}}')
         body = strip(fields['body'])
